@@ -147,6 +147,10 @@ func protoMode(args []string) int {
 	}
 	digits, sum := countsDigits(circ)
 	emittedCirc := false
+	// the whole mode runs in the environment the check started this process with (GOMAXPROCS / GOGC of the child
+	// process: checks/C18.py rotates them); it is part of every failing case
+	penv := processEnv()
+	o.Meta["process_environment"] = penv
 
 	idx := 0
 	var perCurve = map[string][]*session{}
@@ -162,8 +166,8 @@ func protoMode(args []string) int {
 			s1, s2, s3 := r.U64(), r.U64(), r.U64()
 			detail := func() map[string]any {
 				return map[string]any{"case": myIdx, "curve": ci.name, "a": hxlib.Hex(a[:]), "b": hxlib.Hex(b[:]),
-					"tapes": fmt.Sprintf("%d/%d/%d", s1, s2, s3),
-					"rerun": fmt.Sprintf("go run -tags verif ./cmd/c18 proto -repo %s -seed %d -n %d -tier %s -only %d", repo, cf.Seed, cf.N, cf.Tier, myIdx)}
+					"tapes": fmt.Sprintf("%d/%d/%d", s1, s2, s3), "process_environment": penv,
+					"rerun": fmt.Sprintf("%s go run -tags verif ./cmd/c18 proto -repo %s -seed %d -n %d -tier %s -only %d", penv, repo, cf.Seed, cf.N, cf.Tier, myIdx)}
 			}
 			s, err := runSession(ci, a, b, s1, s2, s3)
 			if err != nil {
